@@ -44,7 +44,7 @@ void softHSMLog(const int, const char*, const char*, const int, const char*, ...
 	X(DESTROYABLE) X(LOCAL) X(ALWAYS_SENSITIVE) X(NEVER_EXTRACTABLE)
 #define SYM_ULONGS(X) X(CLASS) X(KEY_TYPE) X(VALUE_LEN) X(CERTIFICATE_TYPE) X(KEY_GEN_MECHANISM)
 #ifdef SYMOBJ_RSA
-#define SYM_BYTES(X) X(VALUE) X(LABEL) X(PRIVATE_EXPONENT) X(PRIME_1) X(PRIME_2) X(EXPONENT_1) X(EXPONENT_2) X(COEFFICIENT)
+#define SYM_BYTES(X) X(VALUE) X(LABEL) X(PRIVATE_EXPONENT) X(PRIME_1) X(PRIME_2) X(EXPONENT_1) X(EXPONENT_2) X(COEFFICIENT) X(MODULUS) X(PUBLIC_EXPONENT)
 #else
 #define SYM_BYTES(X) X(VALUE) X(LABEL) X(ID) X(CHECK_VALUE)
 #endif
